@@ -34,7 +34,9 @@ RULE = (
     "representative set of 14 segments except collinear-overlapping ones (X, T, L, disjoint, "
     "touching-collinear, boundary-touching, boundary-to-boundary); 3-d: all single axis-aligned "
     "lattice rectangles not in the boundary, selected pairs/triples; every network meshed "
-    "Cartesian (if axis-aligned) and simplex; non-trivial = md-grid with >= 1 interface; "
+    "Cartesian (if axis-aligned) and simplex; axis-aligned networks additionally on tensor grids with "
+    "NON-UNIFORM node coordinates (x=[0,.1,.3,.7,1], y=[0,.25,.4,.85,1]; 3-d [0,.2,1]x[0,.6,1]x[0,.35,1]), "
+    "fractures given by the coordinates of grid lines / planes; non-trivial = md-grid with >= 1 interface; "
     "distinct by (network, mesher, mesh size)"
 )
 ASSUMPTIONS = [
@@ -180,7 +182,22 @@ def cases(tier):
         if _admissible(list(tr)):
             meshes = (sx[:1] if q else list(sx)) + ([["cart", 4]] if _axis(list(tr)) else [])
             out.append({"dim": 2, "fracs": [list(map(list, s)) for s in tr], "meshes": meshes})
+    # tensor grids with non-uniform node coordinates: all axis-aligned single fractures on
+    # interior grid lines, all admissible pairs of the axis-aligned representative segments
+    tco = {"coords": [TX, TY]}
+    for sgm in _singles():
+        if _axis([sgm]):
+            out.append({"dim": 2, "fracs": [sgm], "meshes": [["tensor", 0]], **tco})
+    axis_rep = [r for r in REP if _axis([r])]
+    for a, b in itertools.combinations(axis_rep, 2):
+        if _admissible([a, b]):
+            out.append({"dim": 2, "fracs": [a, b], "meshes": [["tensor", 0]], **tco})
+    for tr in itertools.combinations(axis_rep[:6], 3):
+        if _admissible(list(tr)):
+            out.append({"dim": 2, "fracs": [list(map(list, x)) for x in tr], "meshes": [["tensor", 0]], **tco})
     pairs3, triples3 = _multi3()
+    for fr in _singles3() + pairs3 + triples3:
+        out.append({"dim": 3, "fracs": fr, "meshes": [["tensor", 0]], "coords": T3})
     simplex3 = {0, 4, 13} if q else None
     for i, fr in enumerate(_singles3() + pairs3 + triples3):
         meshes = [["cart", 2]] + ([] if q else [["cart", 4]])
@@ -188,6 +205,29 @@ def cases(tier):
             meshes.append(["simplex", 0.5])
         out.append({"dim": 3, "fracs": fr, "meshes": meshes})
     return out
+
+
+# ------------------------------------------------------------------ coordinates
+# Lattice index -> coordinate. Default: uniform (k/4 in 2-d, k/2 in 3-d). Tensor-grid cases
+# carry their own non-uniform node coordinates in case["coords"].
+TX = [0.0, 0.1, 0.3, 0.7, 1.0]
+TY = [0.0, 0.25, 0.4, 0.85, 1.0]
+T3 = [[0.0, 0.2, 1.0], [0.0, 0.6, 1.0], [0.0, 0.35, 1.0]]
+
+
+def _axis_coords(case):
+    if "coords" in case:
+        return [np.array(c, dtype=float) for c in case["coords"]]
+    n, d = (5, 4.0) if case["dim"] == 2 else (3, 2.0)
+    return [np.arange(n) / d for _ in range(case["dim"])]
+
+
+def _seg(case, s):
+    """End points (2-d) of a lattice segment in real coordinates."""
+    cx, cy = _axis_coords(case)
+    if "coords" in case:
+        return np.array([cx[s[0][0]], cy[s[0][1]]]), np.array([cx[s[1][0]], cy[s[1][1]]])
+    return np.array(s[0]) / 4.0, np.array(s[1]) / 4.0
 
 
 # ------------------------------------------------------------------ meshing
@@ -199,13 +239,19 @@ def _mesh(case, mesh):
     kind, par = mesh
     if case["dim"] == 2:
         dom = pp.Domain({"xmin": 0, "xmax": 1, "ymin": 0, "ymax": 1})
-        pts = [np.array(s, dtype=float).T / 4.0 for s in case["fracs"]]
+        pts = [np.array(_seg(case, s), dtype=float).T.copy() for s in case["fracs"]]
         fr = [pp.LineFracture(p) for p in pts]
     else:
         dom = pp.Domain({"xmin": 0, "xmax": 1, "ymin": 0, "ymax": 1, "zmin": 0, "zmax": 1})
-        pts = [_rect_pts(r) for r in case["fracs"]]
+        pts = [_rect_pts(r, _axis_coords(case)) for r in case["fracs"]]
         fr = [pp.PlaneFracture(p) for p in pts]
     before = [p.copy() for p in pts]
+    if kind == "tensor":
+        # non-uniform node coordinates, fractures on grid lines / planes
+        mdg = pp.meshing.tensor_grid(pts, *_axis_coords(case))
+        if any(not np.array_equal(a, b) for a, b in zip(before, pts)):
+            raise ValueError("meshing modified the fracture point arrays passed by the caller")
+        return mdg
     net = pp.create_fracture_network(fr, dom)
     if kind == "cart":
         mdg = pp.create_mdg("cartesian", {"cell_size": 1.0 / par}, net)
@@ -217,15 +263,17 @@ def _mesh(case, mesh):
     return mdg
 
 
-def _rect_pts(r):
+def _rect_pts(r, co=None):
+    if co is None:
+        co = [np.arange(3) / 2.0] * 3
     ax = r["axis"]
     others = [i for i in range(3) if i != ax]
     a0, a1 = r["ra"]
     b0, b1 = r["rb"]
     pts = np.zeros((3, 4))
-    pts[ax] = r["lev"] / 2.0
-    pts[others[0]] = np.array([a0, a1, a1, a0]) / 2.0
-    pts[others[1]] = np.array([b0, b0, b1, b1]) / 2.0
+    pts[ax] = co[ax][r["lev"]]
+    pts[others[0]] = co[others[0]][[a0, a1, a1, a0]]
+    pts[others[1]] = co[others[1]][[b0, b0, b1, b1]]
     return pts
 
 
@@ -239,7 +287,7 @@ def _on_input(case, sd):
     hits = 0
     if case["dim"] == 2:
         for s in case["fracs"]:
-            a, b = np.array(s[0]) / 4.0, np.array(s[1]) / 4.0
+            a, b = _seg(case, s)
             t = (b - a) / np.linalg.norm(b - a)
             rel = pts[:2] - a[:, None]
             sc = t @ rel
@@ -247,12 +295,14 @@ def _on_input(case, sd):
             if np.all(dist < TOL) and np.all(sc > -TOL) and np.all(sc < np.linalg.norm(b - a) + TOL) and np.all(np.abs(pts[2]) < TOL):
                 hits += 1
     else:
+        co = _axis_coords(case)
         for r in case["fracs"]:
             ax = r["axis"]
             others = [i for i in range(3) if i != ax]
-            ok = np.all(np.abs(pts[ax] - r["lev"] / 2.0) < TOL)
-            ok = ok and np.all(pts[others[0]] > r["ra"][0] / 2.0 - TOL) and np.all(pts[others[0]] < r["ra"][1] / 2.0 + TOL)
-            ok = ok and np.all(pts[others[1]] > r["rb"][0] / 2.0 - TOL) and np.all(pts[others[1]] < r["rb"][1] / 2.0 + TOL)
+            ca, cb = co[others[0]], co[others[1]]
+            ok = np.all(np.abs(pts[ax] - co[ax][r["lev"]]) < TOL)
+            ok = ok and np.all(pts[others[0]] > ca[r["ra"][0]] - TOL) and np.all(pts[others[0]] < ca[r["ra"][1]] + TOL)
+            ok = ok and np.all(pts[others[1]] > cb[r["rb"][0]] - TOL) and np.all(pts[others[1]] < cb[r["rb"][1]] + TOL)
             hits += bool(ok)
     return hits >= need
 
@@ -262,7 +312,7 @@ def _expected_sides_2d(case, prim, sec):
     ``prim``, 1 if it is one of its end points (exact, from the lattice data)."""
     p = sec.cell_centers[:2, 0]
     for s in case["fracs"]:
-        a, b = np.array(s[0]) / 4.0, np.array(s[1]) / 4.0
+        a, b = _seg(case, s)
         t = (b - a) / np.linalg.norm(b - a)
         rel = prim.nodes[:2] - a[:, None]
         if np.all(np.abs(rel[0] * t[1] - rel[1] * t[0]) < TOL) and np.all(t @ rel > -TOL) and np.all(t @ rel < np.linalg.norm(b - a) + TOL):
